@@ -31,6 +31,15 @@ note = ''
 p = f'/verif/seeded/{name}/note.txt'
 if os.path.exists(p):
     note = open(p).read().strip()
+old = {}
+if os.path.exists(f'/verif/seeded/{name}/meta.json'):
+    old = json.load(open(f'/verif/seeded/{name}/meta.json'))
+oc = old.get('checks_run', {})
+if oc.get('tier') == tier:
+    props = sorted(set(props) | set(oc.get('properties', [])))
+    caught = ' '.join(sorted(set(caught.split())
+                             | (set(oc.get('reported_violation', []))
+                                - set(sys.argv[7:]))))
 meta = {'name': name, 'breaks_property': name.split('-')[0],
         'needs_to_manifest': note,
         'confirmed': {'test_suite_with_change': suite,
